@@ -203,6 +203,10 @@ func checkMain(args []string) {
 	}
 	frag["wall_s"] = time.Since(start).Seconds()
 	frag["violations"] = nViol
+	frag["hooks_available"] = hooksAvailable
+	if len(skippedHookStreams) > 0 {
+		frag["hook_streams_skipped"] = skippedHookStreams
+	}
 	if *evOut != "" {
 		b, _ := json.MarshalIndent(frag, "", " ")
 		os.MkdirAll(filepath.Dir(*evOut), 0o755)
